@@ -88,7 +88,8 @@ func Corpus() *Program {
 		fld("MapStr", 7, KString, mapOf()), fld("MapInt", 8, KInt32, mapOf()), fld("MapBool", 9, KBool, mapOf()),
 		fld("MapMode", 10, KEnum, ref("Color"), mapOf()),
 		fld("CastStrs", 12, KString, list(), cast("MyString")),
-		fld("MapTime", 14, KTime, mapOf(), nonNull()), fld("MapDur", 15, KDuration, mapOf(), nonNull()))
+		fld("MapTime", 14, KTime, mapOf(), nonNull()), fld("MapDur", 15, KDuration, mapOf(), nonNull()),
+		fld("MapTimeP", 16, KTime, mapOf()), fld("MapDurP", 17, KDuration, mapOf()))
 
 	msg("Nesting", nil,
 		fld("Ptr", 1, KMessage, ref("Mid")), fld("Val", 2, KMessage, ref("Mid"), nonNull()),
